@@ -572,7 +572,8 @@ def main():
         sys.exit(-1)
 
     except InternalBug as e:
-        print(e, file=sys.stderr)
+        if sys.stderr is not None:
+            print(e, file=sys.stderr)
         sys.exit(-1)
 
     except BrokenPipeError:
